@@ -52,6 +52,7 @@ def cases(tier, seed):
             "compute": bool(rng.random() < 0.5), "order": int(rng.choice([0, 1])),
             "scale": float(rng.choice([1.0, 0.5, 1.7])), "iseed": int(rng.integers(0, 2**31)),
             "divisible": bool(rng.random() < 0.4),
+            "tdtype": ("float32", "float32", "uint8", "int16", "uint16")[int(rng.integers(0, 5))],
         })
     return out
 
@@ -73,6 +74,12 @@ def run(case):
         rem = np.zeros(3, int) if p["divisible"] else rng.integers(0, b, size=3)
         tshape = tuple(int(x) for x in nb * b + rem)
         A = rng.normal(size=tshape).astype(np.float32) + 1.0
+        if order == 0 and p.get("tdtype", "float32") != "float32":
+            # integer tomograms with values near the top of their range (block sums exceed the dtype); nearest-
+            # neighbour sampling keeps the loaded values exact
+            info = np.iinfo(p["tdtype"])
+            A = rng.integers(int(info.max * 0.6), int(info.max), size=tshape).astype(p["tdtype"])
+            case.count("integer_tomograms")
         tomos.append(A)
         # molecule centres: binned-voxel box aligned with the binned grid.
         # binned voxel j covers original voxels [j*b, (j+1)*b); its centre is j*b + (b-1)/2.
